@@ -35,12 +35,9 @@ Definition accept_op (k : ikind) (z : Z) : bool :=
   | U64 => in_range U64 z
   end.
 
-(* what _asm_OP_map_key_* accept: as above, except that map_key_u32 uses range_unsigned with MaxUint32 *)
-Definition accept_map_key (k : ikind) (z : Z) : bool :=
-  match k with
-  | U32 => in_range U64 z && range_unsigned (imax U32) (enc64 z)
-  | _ => accept_op k z
-  end.
+(* what _asm_OP_map_key_* accept: the same checks (since fix afd5482 map_key_u32 uses range_uint32_CX like _OP_u32;
+   before, it used range_unsigned_CX with MaxUint32 - see range_unsigned_imm32_pitfall below) *)
+Definition accept_map_key (k : ikind) (z : Z) : bool := accept_op k z.
 
 Lemma as_signed_enc64 : forall z, in_range I64 z = true -> as_signed (enc64 z) = z.
 Proof.
@@ -141,13 +138,14 @@ Proof.
       change (2 ^ 32) with 4294967296. rewrite Z.mod_small by lia. lia.
 Qed.
 
-(* the map-key variant of uint32 compares against a sign-extended 0xFFFFFFFF: nothing is rejected *)
-Theorem range_map_key_u32_refuted :
-  exists z, in_range U32 z = false /\ accept_map_key U32 z = true.
-Proof. exists 4294967296. split; vm_compute; reflexivity. Qed.
+(* range_unsigned_CX cannot be used for uint32: CMPQ CX, $0xFFFFFFFF compares against a sign-extended immediate and
+   rejects nothing (the defect repaired by afd5482) *)
+Theorem range_unsigned_imm32_pitfall :
+  exists z, in_range U32 z = false /\ in_range U64 z = true /\ range_unsigned (imax U32) (enc64 z) = true.
+Proof. exists 4294967296. repeat split; vm_compute; reflexivity. Qed.
 
-Theorem range_map_key_spec : forall k z, k <> U32 -> accept_map_key k z = in_range k z.
-Proof. intros k z H. destruct k; try (apply range_op_spec); congruence. Qed.
+Theorem range_map_key_spec : forall k z, accept_map_key k z = in_range k z.
+Proof. intros k z. apply range_op_spec. Qed.
 
 Example range_accepts_something : accept_op I8 (-128) = true /\ accept_op U32 4294967295 = true /\ accept_op U8 256 = false.
 Proof. repeat split; vm_compute; reflexivity. Qed.
